@@ -11,6 +11,7 @@ import CirkitModel.Model.Fold
 import CirkitModel.Model.Mul
 import CirkitModel.Model.Registry
 import CirkitModel.Model.RegionGraph
+import Driver.TemplateCmd
 
 open Lean Cirkit
 
@@ -440,6 +441,9 @@ def handle (M : Mode R) (s : State R) (j : Json) : Except String (State R × Jso
             mc.inIdx == inIdx)),
         ("entries", Json.arr entries.toArray),
         ("out_entry", Json.mkObj [("ids", toJson outEntry.1), ("idx", toJson outEntry.2)])])
+  | "template" => do
+      -- circuit templates (cp / tucker / tt / hmm / ff) built by the model and evaluated on index tuples
+      pure (s, ← TemplateCmd.run A M.parse j)
   | _ => throw s!"unknown command {cmd}"
 
 partial def loop (M : Mode R) (h : IO.FS.Stream) (out : IO.FS.Stream) (s : State R) : IO Unit := do
